@@ -22,7 +22,7 @@ from .z3env import REPO_SRC, ensure_repo_first
 VERIF = os.path.dirname(os.path.dirname(os.path.abspath(__file__)))
 EVID = os.environ.get("UJVC_EVID") or os.path.join(VERIF, "evidence")
 CONTRACT_MODULES = [
-    "retry", "times", "filestore", "stores", "engine", "prepare", "coordinator", "queues", "runphys", "runpath", "rewrite", "stale", "pruning", "system", "plumbing", "tracebacks", "progress", "queues", "kahn", "graphs", "rewrite", "stale",
+    "retry", "times", "filestore", "stores", "engine", "prepare", "coordinator", "queues", "runphys", "runpath", "rewrite", "stale", "pruning", "system", "plumbing", "tracebacks", "progress", "frames", "kahn", "lemmas", "queues", "kahn", "graphs", "rewrite", "stale",
     "plumbing", "runpath", "observers", "trace", "frames", "progress", "lemmas", "history",
 ]
 
@@ -124,6 +124,8 @@ def property_meta(pid):
 
 def replay_for(ob, pid, mods):
     """Ask the sidecar modules for a native replay of a refuted obligation."""
+    if os.environ.get("UJVC_NO_REPLAY"):
+        return None
     for m in mods:
         for pat, fn in getattr(m, "REPLAYS", []):
             if fnmatch.fnmatch(ob["name"], pat):
